@@ -97,9 +97,11 @@ enum Edit {
     Xor20,
     Delete,
     InsertSpace,
+    InsertCr,
+    InsertLf,
 }
 impl Edit {
-    const ALL: [Edit; 4] = [Edit::Xor1, Edit::Xor20, Edit::Delete, Edit::InsertSpace];
+    const ALL: [Edit; 6] = [Edit::Xor1, Edit::Xor20, Edit::Delete, Edit::InsertSpace, Edit::InsertCr, Edit::InsertLf];
     fn apply(&self, b: &[u8], off: usize) -> Vec<u8> {
         let mut v = b.to_vec();
         match self {
@@ -109,6 +111,8 @@ impl Edit {
                 v.remove(off);
             }
             Edit::InsertSpace => v.insert(off, b' '),
+            Edit::InsertCr => v.insert(off, b'\r'),
+            Edit::InsertLf => v.insert(off, b'\n'),
         }
         v
     }
@@ -118,6 +122,8 @@ impl Edit {
             Edit::Xor20 => "xor20",
             Edit::Delete => "delete",
             Edit::InsertSpace => "insert_space",
+            Edit::InsertCr => "insert_cr",
+            Edit::InsertLf => "insert_lf",
         }
     }
 }
@@ -333,7 +339,7 @@ pub fn run_c17(tier: &str, root: &Path) -> Value {
     rep.sample(json!({"label": "s150", "file": "generated", "edit": "insert_space@17", "expect": "load+check fails"}));
     rep.sample(json!({"label": "s70k", "file": "generated", "edit": "xor01@69000", "expect": "load+check fails"}));
     rep.finish(
-        "for source configurations whose generated file is ~150 B, ~4 KiB, 8191, 8192, 8193, ~20 KiB and ~70 KiB (generated by the real `config generate`): untouched files must load and pass the integrity check; every offset of the generated file x {xor 0x01, xor 0x20, delete, insert space}, truncation at every multiple of 64 and at end-1, three appends; every offset of the source x the same edits, every other case with the edited source's modification time set far into the past (quick: stride 7 for sources above 10 KB, 31 above 32 KB; generated files above 32 KB at stride 3 plus every offset within 8 bytes of a multiple of 8192 and the last 64 bytes; thorough: every offset everywhere); every hex digit of the lockfile checksum, every proper prefix of it, every single-character deletion and an appended digit; all must be rejected; non-trivial = edits after which the file still denotes the same JSON value (only the checksum can notice) plus all lockfile/source-append edits",
+        "for source configurations whose generated file is ~150 B, ~4 KiB, 8191, 8192, 8193, ~20 KiB and ~70 KiB (generated by the real `config generate`): untouched files must load and pass the integrity check; every offset of the generated file x {xor 0x01, xor 0x20, delete, insert space, insert CR, insert LF}, truncation at every multiple of 64 and at end-1, three appends; every offset of the source x the same edits, every other case with the edited source's modification time set far into the past (quick: stride 7 for sources above 10 KB, 31 above 32 KB; generated files above 32 KB at stride 3 plus every offset within 8 bytes of a multiple of 8192 and the last 64 bytes; thorough: every offset everywhere); every hex digit of the lockfile checksum, every proper prefix of it, every single-character deletion and an appended digit; all must be rejected; non-trivial = edits after which the file still denotes the same JSON value (only the checksum can notice) plus all lockfile/source-append edits",
         true,
         json!({"sizes": sizes.iter().map(|s| s.0).collect::<Vec<_>>(), "edits": 4}),
     )
